@@ -293,7 +293,7 @@ def stable_var(rng, P, coupling):
 def gen_gc_specs(ctx):
     rng = ctx.rng
     out = []
-    for i in range(ctx.scale(110, 900)):
+    for i in range(ctx.scale(60, 300)):
         P = rng.randint(1, 6)
         coupling = rng.choice(["both", "both", "both", "no-y2x", "no-x2y", "none"])
         a = stable_var(rng, P, coupling)
@@ -306,7 +306,7 @@ def gen_gc_specs(ctx):
         else:
             u = rng.choice([-1, 1]) * int(0.93 * np.sqrt(s * g) * 64) / 64.0
         cov = [[s, u], [u, g]]
-        nf = rng.choice([2, 3, 4, 5, 6, 7, 8, 9, 10, 11] + ([] if ctx.quick else [16, 17, 32, 33]))
+        nf = rng.choice([2, 3, 4, 5, 6, 7, 8, 9] + ([] if ctx.quick else [10, 11, 16, 17]))
         out.append({"kind": "gc", "a": [[[hx(v) for v in row] for row in m] for m in a], "cov": [[hx(v) for v in row] for row in cov],
                     "n_freqs": nf, "coupling": coupling, "covkind": ck})
     return out
@@ -315,7 +315,7 @@ def gen_gc_specs(ctx):
 def gen_an_specs(ctx):
     rng = ctx.rng
     out = []
-    for i in range(ctx.scale(14, 60)):
+    for i in range(ctx.scale(14, 40)):
         nch = rng.choice([2, 3, 3, 4])
         pairs = [(i_, j_) for i_ in range(nch) for j_ in range(nch) if i_ != j_]
         kind = rng.choice(["default", "subset", "reversed", "repeated", "all-ordered"])
@@ -372,7 +372,7 @@ def run(ctx):
         for c in CASES[spec["kind"]](spec, o):
             cases.append(c)
             owners.append(si)
-    bad = ctx.check_cases("K", HEADER, cases, "check", shard=ctx.scale(24, 60), case_type="case", timeout=1500)
+    bad = ctx.check_cases("K", HEADER, cases, "check", shard=ctx.scale(14, 40), case_type="case", timeout=1500)
     bad_specs = {owners[i] for i in bad}
     order = sorted(range(len(results)), key=lambda i: (i not in bad_specs, i))
     for i in order:
@@ -386,7 +386,7 @@ def run(ctx):
     ctx.extra["oracle_checked_inputs"] = len(results)
     ctx.extra["rule"] = ("seeded generator: stable bivariate AR coefficient sets of order 1..6 (random, three scales, couplings both / "
                          "no y->x / no x->y / none), innovation covariances diagonal / correlated / strongly correlated (short dyadics), "
-                         "n_freqs 2..11 of both parities (..33 thorough); analyzer runs on simulated 2-4 channel series with default, "
+                         "n_freqs 2..9 of both parities (..17 thorough); analyzer runs on simulated 2-4 channel series with default, "
                          "subset, reversed, repeated and shuffled ij lists. One case = one stage of one call compared inside Coq.")
     return ctx.finish(
         trusted=["scipy.signal.freqz (through freq_response): A(w) = sum_k c_k e^{-jwk}; validated per case against the model's "
